@@ -676,6 +676,7 @@ func runC09(w *World, r *Report) {
 	// ---- 4. error path ----
 	c09ErrorPath(w, r)
 	c09CommentDelivery(w, r)
+	fmtCommentEndsLine(w, r, "C09")
 	r.assume("comments are only recoverable through hidden-channel queries at adjacent default-channel tokens (LINE_COMMENT -> channel(HIDDEN))")
 }
 
@@ -804,6 +805,7 @@ func runC10(w *World, r *Report) {
 	}
 	r.floor(rulePos, 20)
 	c10SameLineAnchor(w, r, fns)
+	fmtCommentEndsLine(w, r, "C10")
 	// the dsl text itself is not consulted after parsing
 	fmtFn := w.Parser.Func("FormatPacketDsl")
 	if fmtFn == nil {
